@@ -55,16 +55,77 @@ def gen_request(rng, idx: int, opts: dict) -> dict:
     return {"kind": kind, "method": method, "target": target, "headers": headers, "version": version, "body": body, "chunks": chunks}
 
 
+# ways a request can be malformed / aborted after a well-formed start (all of them make h11's `next_event()` raise
+# RemoteProtocolError; checked against h11 in server role by `malformed_is_rejected`)
+BAD_CHUNK_TAILS = ["zz\r\n", "-1\r\n", "1g\r\nx\r\n", "5\r\nabcdeXY\r\n", "\r\n\r\n", "0x5\r\nabcde\r\n", "this is not a chunk size\r\n\r\n"]
+BAD_HEADS = ["BLAH\r\n\r\n", "GET /\x00 HTTP/1.1\r\nHost: x\r\n\r\n", "GET / HTTP/1.1\r\nHost: x\r\nbad header line\r\n\r\n",
+             "POST / HTTP/1.1\r\nHost: x\r\nContent-Length: -1\r\n\r\n", "POST / HTTP/1.1\r\nHost: x\r\nContent-Length: 1\r\nContent-Length: 2\r\n\r\n"]
+
+
+def make_malformed(rng, r: dict, how: str, idx: int = 0) -> dict:
+    """turn a generated request into a malformed / aborted one (optional fields read by `request_bytes` / `request_body`):
+    bad_chunk: a chunked body that goes wrong after 0..k good chunks; truncated: a content-length body that ends early
+    (only meaningful as the last request, followed by EOF); bad_head: bytes that are no request head at all"""
+    r = dict(r)
+    if how == "bad_head":
+        return {**r, "kind": "bad_head", "method": "GET", "raw": rng.choice(BAD_HEADS), "body": "", "chunks": None, "malformed": "head"}
+    r["headers"] = [h for h in r["headers"] if h[0].lower() not in ("upgrade", "http2-settings", "sec-websocket-key", "sec-websocket-version", "expect")
+                    and not (h[0].lower() == "connection" and "pgrade" in h[1])]
+    r["method"] = r["method"] if r["method"].upper() not in ("GET", "HEAD") else "POST"
+    if how == "bad_chunk":
+        k = rng.choice([0, 0, 1, 2, 5])
+        r.update(kind="bad_chunk", body="", chunks=["".join(chr(65 + (j + i + idx) % 26) for i in range(rng.choice([1, 2, 7, 300]))) for j in range(k)],
+                 bad_tail=rng.choice(BAD_CHUNK_TAILS), malformed="body")
+    else:
+        n = rng.choice([1, 2, 30, 5000])
+        r.update(kind="truncated", chunks=None, body="".join(chr(97 + (i * 7 + idx) % 26) for i in range(n)), cut=rng.randint(1, n), malformed="body")
+    return r
+
+
 def request_bytes(r: dict) -> bytes:
+    if r.get("raw") is not None:
+        return r["raw"].encode("latin1")
     hs = [(n.encode("latin1"), v.encode("latin1")) for n, v in r["headers"]]
     chunks = None if r["chunks"] is None else [c.encode("latin1") for c in r["chunks"]]
-    return C.h1_request(r["method"], r["target"], hs, r["body"].encode("latin1"), version=r["version"], chunks=chunks)
+    data = C.h1_request(r["method"], r["target"], hs, r["body"].encode("latin1"), version=r["version"], chunks=chunks)
+    if r.get("bad_tail") is not None:
+        assert chunks is not None and data.endswith(b"0\r\n\r\n")
+        data = data[:-5] + r["bad_tail"].encode("latin1")
+    if r.get("cut"):
+        data = data[:-r["cut"]]
+    return data
 
 
 def request_body(r: dict) -> bytes:
+    """the body bytes the client sent (for a malformed / aborted request: the well-formed part of it)"""
+    if r.get("raw") is not None:
+        return b""
     if r["chunks"] is not None:
-        return "".join(r["chunks"]).encode("latin1")
-    return r["body"].encode("latin1")
+        good = "".join(r["chunks"]).encode("latin1")
+        tail = (r.get("bad_tail") or "").encode("latin1")
+        # a bad tail may begin with a well-formed chunk header and its data (the chunk's END is what is wrong): those bytes are body
+        size, sep, rest = tail.partition(b"\r\n")
+        if sep and size and all(c in b"0123456789abcdefABCDEF" for c in size) and len(rest) >= int(size, 16):
+            good += rest[:int(size, 16)]
+        return good
+    body = r["body"].encode("latin1")
+    return body[:len(body) - r["cut"]] if r.get("cut") else body
+
+
+def malformed_is_rejected(r: dict) -> bool:
+    """oracle: h11 in server role raises RemoteProtocolError on these bytes (followed by EOF for a truncated body)"""
+    import h11
+    conn = h11.Connection(h11.SERVER)
+    conn.receive_data(request_bytes(r))
+    if r.get("cut"):
+        conn.receive_data(b"")
+    try:
+        while True:
+            ev = conn.next_event()
+            if ev is h11.NEED_DATA or ev is h11.PAUSED or isinstance(ev, h11.ConnectionClosed):
+                return False
+    except h11.RemoteProtocolError:
+        return True
 
 
 def gen_app(rng, r: dict, opts: dict) -> dict:
@@ -94,6 +155,9 @@ def app_messages(r: dict, a: dict) -> List[Optional[dict]]:
         return msgs + [None]
     body_len = sum(len(c) for c in a["chunks"])
     headers = [(b"x-app", b"1")]
+    if a.get("conn_close"):
+        # the application itself asks to close the connection after this response
+        headers.append((a.get("conn_close_name", "connection").encode(), a["conn_close"].encode()))
     if a["content_length"] and a["status"] not in (204,) and a["crash"] is None:
         headers.append((b"content-length", str(body_len).encode()))
     msgs = []
@@ -144,6 +208,7 @@ class Policy:
         self.sent_eof = False
         self.sent_closed = False
         self.spawn_order: List[int] = []
+        self.dropped = False
 
     def _ready(self, view, oid: int, k: int) -> bool:
         a = self.apps[k % len(self.apps)]
@@ -177,6 +242,7 @@ class Policy:
                 return {"data": b""}
             if self.reads and view["up_closed"]:
                 self.reads = []
+                self.dropped = True       # the server closed: what the client still had to say is never read
             if any(self.pending[o] for o in self.pending):
                 # applications that wait for a body that will never complete: let them run now
                 for k, oid in enumerate(self.spawn_order):
